@@ -711,6 +711,8 @@ class InterpCore(object):
             return self.isnone_of(other)
         if isinstance(a, Const) and isinstance(b, Num) or isinstance(a, Num) and isinstance(b, Const):
             return False
+        if (isinstance(a, (ListV, DictV)) and isinstance(b, (Const, Num))) or (isinstance(b, (ListV, DictV)) and isinstance(a, (Const, Num))):
+            return False        # a container never equals text, a number, None or a truth value
         if isinstance(a, (ListV, SortedV)) and isinstance(b, (ListV, SortedV)):
             if a.key() == b.key():
                 return True
